@@ -2,6 +2,7 @@
 from ..rules import liveness as L
 from ..rules import broken as B
 from ..rules import reusable as X
+from ..rules import scenario as SC
 
 EXPLANATION = (
     "Static analysis. Decides: parameter flow of kill_workers from get_reusable_executor through shutdown() into the flag "
@@ -23,4 +24,5 @@ def run(e, R, tier):
         L.r_cancel_safe,
         L.r_mgr_exit,
         B.r_exc_types,
+        SC.r_scn_manager,
     ])
